@@ -76,6 +76,23 @@ def run(ck):
                 got = concrete(out.value)
                 ck.ob('C04.table', label, got == [([str(want)], False)], key='qartod_compare:non-flag-value-counted',
                       what=f'{label} gives {got}, the property gives {want}: values that are not flags must be ignored')
+    # many vectors ("any number of"): the worst flag sits first, last, in the middle, at a multiple of 8 / 16, or nowhere
+    for k in (5, 8, 9, 16, 17, 24, 33):
+        for worst_at in sorted({0, k - 1, k // 2, 7, 8, 15, 16} & set(range(k))):
+            for base, worst in ((1, 4), (9, 2), ('masked', 3), (2, 1)):
+                combo = [base] * k
+                combo[worst_at] = worst
+                vecs = [mkvec([v]) for v in combo]
+                out = r.run(qc, [vecs])
+                label = f'qartod_compare({k} vectors, all {base} except {worst} at #{worst_at})'
+                ck.count(1, distinct=('cmp-many', k, worst_at, str(base)))
+                if out.kind == 'raise':
+                    ck.violate('C04.table', f'qartod_compare:raises:{out.exc.tname}', f'{label} raises {out.exc.tname}{out.exc.args}')
+                    continue
+                want = expected(combo)
+                got = concrete(out.value)
+                ck.ob('C04.table', label, got == [([str(want)], False)], key='qartod_compare:many-vectors',
+                      what=f'{label} gives {got}, the property gives {want}')
     # position independence / several points / input untouched
     for cols in itertools.islice(itertools.product(itertools.product(VALUES, repeat=2), repeat=2), 0, None, 7):
         # cols = (vector1 values, vector2 values), two positions each
